@@ -4,6 +4,7 @@ C07 (part 7) — the numeric single-token validators: what is accepted lies in t
 The clause tables are regenerated from the source (Gen/NumericC07): an edited bound re-checks every statement here.
 -/
 import WpModel.Model.NumericC07
+import WpModel.Props.C07
 
 namespace Wp.C07
 open Wp Wp.Len07 Wp.Num07
@@ -292,23 +293,27 @@ theorem non_integer_refused (name : String) (hn : name ∈ ["orphans", "widows",
   · simp [validate, clauses_widows, evalClauses, Clause.test, NTok.isNumber]
   · simp [validate, clauses_order, evalClauses, Clause.test, NTok.isNumber]
 
-private theorem clauses_flex_grow : clausesOf "flex-grow" = some [⟨"number", none, [], [], false, false, false⟩] := by
+private theorem clauses_flex_grow : clausesOf "flex-grow" = some [⟨"number", some 0, [], [], false, false, false⟩] := by
   rfl
-private theorem clauses_flex_shrink : clausesOf "flex-shrink" = some [⟨"number", none, [], [], false, false, false⟩] := by
+private theorem clauses_flex_shrink : clausesOf "flex-shrink" = some [⟨"number", some 0, [], [], false, false, false⟩] := by
   rfl
 
-/-- `flex-grow` / `flex-shrink`: what is accepted is a number token, with its own value.  (`_partial`: the grammar
-`<number [0,∞]>` would add `0 ≤ q`, which is false of the code: `Witness.C07.flex_negative_factor_accepted`.) -/
-theorem flex_factor_partial (name : String) (hn : name = "flex-grow" ∨ name = "flex-shrink") (ts : List NTok)
-    (v : NVal) (h : validate name ts = some (some v)) : ∃ t q, ts = [t] ∧ t.ltok = .number q ∧ v = .num q := by
-  have key : ∀ t, evalClauses [⟨"number", none, [], [], false, false, false⟩] false t = some v →
-      ∃ q, t.ltok = .number q ∧ v = .num q := by
+/-- **`flex-grow` / `flex-shrink`: what is accepted is a non-negative number token, with its own value** (full
+strength since `fix:` c151619; before it the statement stopped at "a number token": negative factors were kept
+although css-flexbox-1 §7.2/7.3 makes them invalid). -/
+theorem flex_factor_nonneg (name : String) (hn : name = "flex-grow" ∨ name = "flex-shrink") (ts : List NTok)
+    (v : NVal) (h : validate name ts = some (some v)) :
+    ∃ t q, ts = [t] ∧ t.ltok = .number q ∧ 0 ≤ q ∧ v = .num q := by
+  have key : ∀ t, evalClauses [⟨"number", some 0, [], [], false, false, false⟩] false t = some v →
+      ∃ q, t.ltok = .number q ∧ 0 ≤ q ∧ v = .num q := by
     intro t he
     cases hl : t.ltok with
     | number q =>
-      refine ⟨q, rfl, ?_⟩
-      simp [evalClauses, Clause.test, Clause.value, geBound, hl] at he
-      exact he.symm
+      by_cases hq : (0 : Rat) ≤ q
+      · refine ⟨q, rfl, hq, ?_⟩
+        simp [evalClauses, Clause.test, Clause.value, geBound, hl, hq] at he
+        exact he.symm
+      · simp [evalClauses, Clause.test, geBound, hl, hq] at he
     | dimension a b c => simp [evalClauses, Clause.test, hl] at he
     | percentage a => simp [evalClauses, Clause.test, hl] at he
     | other => simp [evalClauses, Clause.test, hl] at he
@@ -317,17 +322,25 @@ theorem flex_factor_partial (name : String) (hn : name = "flex-grow" ∨ name = 
   · rw [clauses_flex_grow] at h
     match ts, h with
     | [t], h =>
-      obtain ⟨q, h1, h2⟩ := key t (by simpa using h)
-      exact ⟨t, q, rfl, h1, h2⟩
+      obtain ⟨q, h1, h2, h3⟩ := key t (by simpa using h)
+      exact ⟨t, q, rfl, h1, h2, h3⟩
     | [], h => simp at h
     | _ :: _ :: _, h => simp at h
   · rw [clauses_flex_shrink] at h
     match ts, h with
     | [t], h =>
-      obtain ⟨q, h1, h2⟩ := key t (by simpa using h)
-      exact ⟨t, q, rfl, h1, h2⟩
+      obtain ⟨q, h1, h2, h3⟩ := key t (by simpa using h)
+      exact ⟨t, q, rfl, h1, h2, h3⟩
     | [], h => simp at h
     | _ :: _ :: _, h => simp at h
+
+/-- Regression (`flex-grow: -1`, `flex-shrink: -0.5`, repaired by c151619): refused; zero and positive factors kept. -/
+example :
+    validate "flex-grow" [{ intValue := some (-1), keyword := none, ltok := .number (-1) }] = some none ∧
+    validate "flex-shrink" [{ intValue := none, keyword := none, ltok := .number (-1 / 2) }] = some none ∧
+    validate "flex-grow" [intTok 0] = some (some (.num 0)) ∧
+    validate "flex-shrink" [{ intValue := none, keyword := none, ltok := .number (3 / 2) }] = some (some (.num (3 / 2))) := by
+  decide +kernel
 
 /-- `single_token`: several tokens (or none) are refused by every numeric property. -/
 theorem numeric_single_token (name : String) (ts : List NTok) (h : ts.length ≠ 1) (v : NVal) :
@@ -341,12 +354,170 @@ theorem numeric_single_token (name : String) (ts : List NTok) (h : ts.length ≠
     | [_], h => simp at h
     | _ :: _ :: _, _ => simp
 
+/-! ## 26b. One or two lengths: border-spacing takes no percentage, the radii do -/
+
+/-- Whatever the flags: a value is accepted only for one or two tokens, each of which `get_length` accepts with
+these flags; one length stands for both components. -/
+theorem length_list_sound (n p : Bool) (toks : List LTok) (a b : Spec) (h : lengthList n p toks = some (a, b)) :
+    (∃ t, toks = [t] ∧ getLength n p t = some a ∧ b = a) ∨
+    (∃ t u, toks = [t, u] ∧ getLength n p t = some a ∧ getLength n p u = some b) := by
+  unfold lengthList at h
+  match toks, h with
+  | [], h => simp at h
+  | [t], h =>
+    left
+    cases hg : getLength n p t with
+    | none => simp [hg] at h
+    | some x =>
+      simp [hg] at h
+      obtain ⟨rfl, rfl⟩ := h
+      exact ⟨t, rfl, hg, rfl⟩
+  | [t, u], h =>
+    right
+    cases hg : getLength n p t with
+    | none => simp [hg] at h
+    | some x =>
+      cases hu : getLength n p u with
+      | none => simp [hg, hu] at h
+      | some y =>
+        simp [hg, hu] at h
+        obtain ⟨rfl, rfl⟩ := h
+        exact ⟨t, u, rfl, hg, hu⟩
+  | _ :: _ :: _ :: _, h =>
+    simp only [List.map_cons] at h
+    split at h <;> simp_all
+
+private theorem flags_border_spacing : lengthListFlags "border-spacing" = some (false, false) := by rfl
+private theorem flags_radius (name : String)
+    (hn : name ∈ ["border-top-left-radius", "border-top-right-radius", "border-bottom-right-radius",
+      "border-bottom-left-radius"]) : lengthListFlags name = some (false, true) := by
+  simp only [List.mem_cons, List.not_mem_nil, or_false] at hn
+  rcases hn with rfl | rfl | rfl | rfl <;> rfl
+
+/-- A component `get_length` lets through without the percentage flag is not a percentage, and without the negative
+flag it is not negative. -/
+private theorem get_length_flags (n p : Bool) (t : LTok) (v : Rat) (u : Option String)
+    (h : getLength n p t = some (.dim v u)) : (p = false → u ≠ some "%") ∧ (n = false → 0 ≤ v) := by
+  have nonneg : ∀ x : Rat, (n = true ∨ x ≥ 0) → n = false → 0 ≤ x := by
+    intro x hc hn
+    rcases hc with h' | h'
+    · rw [hn] at h'; cases h'
+    · exact h'
+  cases t with
+  | percentage x =>
+    simp only [getLength] at h
+    split at h
+    · rename_i hc
+      simp only [Bool.and_eq_true, Bool.or_eq_true, decide_eq_true_eq] at hc
+      cases h
+      constructor
+      · intro hp
+        rw [hp] at hc
+        exact absurd hc.1 (by decide)
+      · exact nonneg _ hc.2
+    · cases h
+  | dimension x w l =>
+    simp only [getLength] at h
+    split at h
+    · rename_i hc
+      simp only [Bool.and_eq_true, Bool.or_eq_true, decide_eq_true_eq] at hc
+      cases h
+      constructor
+      · intro _ hw
+        have hpc : lengthUnits.contains "%" = false := by decide +kernel
+        have hww : w = "%" := Option.some.inj hw
+        rw [hww, hpc] at hc
+        exact absurd hc.1 (by decide)
+      · exact nonneg _ hc.2
+    · cases h
+  | number x =>
+    simp only [getLength] at h
+    split at h
+    · cases h
+      constructor
+      · intro _ hw
+        cases hw
+      · intro _
+        exact Rat.le_refl
+    · cases h
+  | other => simp [getLength] at h
+
+/-- **`border-spacing` takes one or two non-negative lengths and no percentage** (CSS 2.1 §17.6.1:
+`<length> <length>?`): whatever is accepted has two components that are neither percentages nor negative — so
+`border-spacing: 10%`, `2px 50%` are invalid declarations and never reach the table layout arithmetic. -/
+theorem border_spacing_no_percentage (toks : List LTok) (a b : Spec)
+    (h : validateLengthList "border-spacing" toks = some (some (a, b))) :
+    ∃ va ua vb ub, a = .dim va ua ∧ b = .dim vb ub ∧ ua ≠ some "%" ∧ ub ≠ some "%" ∧ 0 ≤ va ∧ 0 ≤ vb := by
+  unfold validateLengthList at h
+  rw [flags_border_spacing] at h
+  simp only [Option.map_some, Option.some.injEq] at h
+  rcases length_list_sound false false toks a b h with ⟨t, _, ha, hba⟩ | ⟨t, u, _, ha, hb⟩
+  · obtain ⟨va, ua, hda⟩ := get_length_dim false false t a ha
+    rw [hda] at ha
+    obtain ⟨h1, h2⟩ := get_length_flags false false t va ua ha
+    exact ⟨va, ua, va, ua, hda, hba.trans hda, h1 rfl, h1 rfl, h2 rfl, h2 rfl⟩
+  · obtain ⟨va, ua, rfl⟩ := get_length_dim false false t a ha
+    obtain ⟨vb, ub, rfl⟩ := get_length_dim false false u b hb
+    obtain ⟨h1, h2⟩ := get_length_flags false false t va ua ha
+    obtain ⟨h3, h4⟩ := get_length_flags false false u vb ub hb
+    exact ⟨va, ua, vb, ub, rfl, rfl, h1 rfl, h3 rfl, h2 rfl, h4 rfl⟩
+
+/-- The four corner radii take non-negative lengths **and percentages** (css-backgrounds-3 §5.1). -/
+theorem border_radius_lengths (name : String)
+    (hn : name ∈ ["border-top-left-radius", "border-top-right-radius", "border-bottom-right-radius",
+      "border-bottom-left-radius"]) (x : Rat) (hx : 0 ≤ x) :
+    validateLengthList name [.percentage x] = some (some (.dim x (some "%"), .dim x (some "%"))) ∧
+    validateLengthList name [.dimension x "px" "px", .percentage x]
+      = some (some (.dim x (some "px"), .dim x (some "%"))) ∧
+    (x ≠ 0 → validateLengthList name [.percentage (-x)] = some none) := by
+  have hpx : "px" ∈ lengthUnits := by
+    have : lengthUnits.contains "px" = true := by decide +kernel
+    simpa using this
+  have hd : decide (0 ≤ x) = true := by simpa using hx
+  unfold validateLengthList
+  rw [flags_radius name hn]
+  refine ⟨by simp [lengthList, getLength, hd], by simp [lengthList, getLength, hd, hpx], fun hne => ?_⟩
+  have hneg : ¬ (0 ≤ -x) := by
+    intro h0
+    have : x ≤ 0 := by
+      have := Rat.neg_le_neg h0
+      simpa using this
+    exact hne (Rat.le_antisymm this hx)
+  simp [lengthList, getLength, hneg]
+
+/-- Non-vacuity / regression shape of seeded change C07-9: `border-spacing: 2px`, `2px 4px` kept; `10%`, `2px 50%`,
+`-1px`, three values refused; `width` is not such a property. -/
+example :
+    validateLengthList "border-spacing" [.dimension 2 "px" "px"] = some (some (.dim 2 (some "px"), .dim 2 (some "px"))) ∧
+    validateLengthList "border-spacing" [.dimension 2 "px" "px", .dimension 4 "px" "px"]
+      = some (some (.dim 2 (some "px"), .dim 4 (some "px"))) ∧
+    validateLengthList "border-spacing" [.percentage 10] = some none ∧
+    validateLengthList "border-spacing" [.dimension 2 "px" "px", .percentage 50] = some none ∧
+    validateLengthList "border-spacing" [.dimension (-1) "px" "px"] = some none ∧
+    validateLengthList "border-spacing" [.number 0, .number 0, .number 0] = some none ∧
+    validateLengthList "width" [.number 0] = none := by
+  refine ⟨by decide +kernel, by decide +kernel, by decide +kernel, by decide +kernel, by decide +kernel,
+    by decide +kernel, by decide +kernel⟩
+
 /-! ## 27. image-resolution -/
 
-/-- `image-resolution` (`_partial`: for a **positive** resolution — the only ones CSS allows — the intrinsic size
-of a raster image is defined and positive; for zero it is a `ZeroDivisionError`, which the validator does not
-exclude: `Witness.C07.image_resolution_zero_division`). -/
-theorem image_resolution_partial (w h r : Rat) (hr : 0 < r) (hw : 0 < w) (hh : 0 < h) :
+/-- **`image-resolution`: an accepted resolution is positive** (the `>` test of `fix:` d011d54). -/
+theorem image_resolution_positive (t : LTok) (r : Rat) (h : imageResolution t = some r) :
+    0 < r ∧ getResolution t = some r := by
+  unfold imageResolution at h
+  cases hg : getResolution t with
+  | none => rw [hg] at h; cases h
+  | some q =>
+    rw [hg] at h
+    simp only at h
+    split at h
+    · rename_i hq
+      cases h
+      exact ⟨hq, rfl⟩
+    · cases h
+
+/-- For a positive resolution the intrinsic size of a raster image is defined and positive. -/
+theorem raster_intrinsic_defined (w h r : Rat) (hr : 0 < r) (hw : 0 < w) (hh : 0 < h) :
     ∃ a b, rasterIntrinsicSize w h r = .ok (a, b) ∧ 0 < a ∧ 0 < b := by
   have hne : (r == 0) = false := by
     have : r ≠ 0 := fun e => by rw [e] at hr; exact absurd hr (by decide)
@@ -354,6 +525,20 @@ theorem image_resolution_partial (w h r : Rat) (hr : 0 < r) (hw : 0 < w) (hh : 0
   refine ⟨w / r, h / r, by simp [rasterIntrinsicSize, hne, pure, Except.pure], ?_, ?_⟩
   · rw [Rat.div_def]; exact Rat.mul_pos hw (Rat.inv_pos.2 hr)
   · rw [Rat.div_def]; exact Rat.mul_pos hh (Rat.inv_pos.2 hr)
+
+/-- **No `image-resolution` declaration the validator keeps can make `get_intrinsic_size` divide by zero** (full
+strength since `fix:` d011d54; before it the statement needed `0 < r` as a hypothesis: `image-resolution: 0dppx` was
+kept and aborted the rendering of any raster image). -/
+theorem image_resolution_total (t : LTok) (r w h : Rat) (ht : imageResolution t = some r) (hw : 0 < w) (hh : 0 < h) :
+    ∃ a b, rasterIntrinsicSize w h r = .ok (a, b) ∧ 0 < a ∧ 0 < b :=
+  raster_intrinsic_defined w h r (image_resolution_positive t r ht).1 hw hh
+
+/-- Regression (`image-resolution: 0dppx`, `-1dppx`, repaired by d011d54): refused; `2dppx`, `96dpi` kept. -/
+example :
+    imageResolution (.dimension 0 "dppx" "dppx") = none ∧ imageResolution (.dimension (-1) "dppx" "dppx") = none ∧
+    imageResolution (.dimension 2 "dppx" "dppx") = some 2 ∧ imageResolution (.dimension 96 "dpi" "dpi") = some 1 ∧
+    imageResolution (.number 1) = none := by
+  refine ⟨by decide +kernel, by decide +kernel, by decide +kernel, by decide +kernel, by decide +kernel⟩
 
 /-- The resolution units: `1dppx = 96dpi`, and only `dppx`, `dpi`, `dpcm` as written are resolutions. -/
 theorem resolution_units :
